@@ -60,12 +60,16 @@ def bytes_to_blocks(
 
     # Record each type of arg, as we find it, so we know which ones are missing at the
     # end and which are in the wrong order
-    found_names = ToArgs(names)
+    found_names = ToArgs(names, FromArgs[str]())
+    found_varnames = ToArgs(varnames, FromArgs[str]())
     # We count all the arg names as "found", since we will always preserve them in the
     # args
-    found_varnames = ToArgs(varnames, {i: i for i in range(len(args.parameters))})
-    found_cellvars = ToArgs(cellvars)
-    found_constants = ToArgs(constants)
+    for i in range(len(args.parameters)):
+        found_varnames.found_index(i)
+    found_cellvars = ToArgs(cellvars, FromArgs[str]())
+    found_constants = ToArgs(
+        constants, FromArgs[ConstantValue](_hash_fn=constant_key)
+    )
 
     # If we have a function block and a docstring, the first constant is the docstring.
     if isinstance(block_type, Function) and block_type.docstring is not None:
@@ -371,22 +375,25 @@ T = TypeVar("T")
 @dataclass
 class ToArgs(Generic[T]):
     _args: tuple[T, ...]
-    # Mapping of the actual index argument to the position it was
-    # found
-    _index_to_order: dict[int, int] = field(default_factory=dict)
+    # The state of the table if it was encoded again, so that we only record
+    # the index of an arg if it would otherwise be encoded at a different one
+    _from_args: FromArgs[T]
+    # All the indices which were found
+    _found: set[int] = field(default_factory=set)
 
     def found_index(self, index: int) -> tuple[T, Optional[int]]:
-        if index not in self._index_to_order:
-            self._index_to_order[index] = len(self._args)
-        wrong_position = self._index_to_order[index] != index
-        return self._args[index], index if wrong_position else None
+        arg = self._args[index]
+        self._found.add(index)
+        wrong_position = self._from_args.next_index(arg) != index
+        self._from_args.add(arg, index if wrong_position else None)
+        return arg, index if wrong_position else None
 
     def __len__(self) -> int:
         return len(self._args)
 
     def additional_args(self) -> Iterable[tuple[T, Optional[int]]]:
         for i in range(len(self._args)):
-            if i not in self._index_to_order:
+            if i not in self._found:
                 yield self.found_index(i)
 
 
@@ -414,6 +421,12 @@ class FromArgs(Generic[T]):
     def to_tuple(self) -> Tuple[T, ...]:
         return tuple(v for _, v, in sorted(self._i_to_arg.items()))
 
+    def next_index(self, arg: T) -> int:
+        """
+        Returns the index an argument is added at, if it is not overriden
+        """
+        return self._arg_to_i.get(self._hash_fn(arg), len(self))
+
     def add(self, arg: T, index_override: Optional[int]) -> int:
         """
         Add an argument, returning it's final index
@@ -421,11 +434,9 @@ class FromArgs(Generic[T]):
         if index_override is not None:
             self[index_override] = arg
             return index_override
-        hash_ = self._hash_fn(arg)
-        if hash_ in self._arg_to_i:
-            return self._arg_to_i[hash_]
-        index = len(self)
-        self[index] = arg
+        index = self.next_index(arg)
+        if index == len(self):
+            self[index] = arg
         return index
 
 
